@@ -143,7 +143,7 @@ theorem strContentA_sim (x : ACtx) (h : Hdr) (d : Bytes) (e : Bool) (a : ASt) :
     · exact Sim.pure x a _
     · have hf := request_fr x .arena a 0
       refine ⟨?_, fun ha hc => ?_⟩
-      · cases hr : (a.request x.orc .arena).1 <;> simp only [hr, Bool.not_false, Bool.not_true, Bool.false_eq_true, ↓reduceIte]
+      · cases (a.request x.orc .arena).1 <;> simp only [Bool.not_false, Bool.not_true, Bool.false_eq_true, ↓reduceIte]
         · exact hf
         · cases decodeString x.ctx.cfg (d.length + 1) d
           · exact hf
